@@ -41,7 +41,7 @@ pub uninterp spec fn link_o<'tcx>(p: &OpaquePath, tcx: &'tcx TypeContext) -> Lin
 pub uninterp spec fn link_s<'tcx>(p: &StructPath, tcx: &'tcx TypeContext) -> LinkedLifetimes<'tcx>;
 impl OpaquePath { #[verifier::external_body] pub fn link_lifetimes<'tcx>(&self, tcx: &'tcx TypeContext) -> (r: LinkedLifetimes<'tcx>) ensures r == link_o(self, tcx) { unimplemented!() } }
 impl StructPath { #[verifier::external_body] pub fn link_lifetimes<'tcx>(&self, tcx: &'tcx TypeContext) -> (r: LinkedLifetimes<'tcx>) ensures r == link_s(self, tcx) { unimplemented!() } }
-pub enum Type { Opaque(OpaquePath), Struct(StructPath), Other(u8) }
+pub enum Type { Opaque(OpaquePath), Struct(StructPath), DiplomatOption(Box<Type>), Other(u8) }
 pub mod hir { pub use super::Type; pub use super::Method; }
 pub fn __contains(v: &Vec<Lifetime>, x: &Lifetime) -> (r: bool) ensures r == v@.contains(*x)
 {
@@ -82,8 +82,10 @@ pub open spec fn linked_wf(linked: LL) -> bool {
     linked.env.num_lifetimes <= linked.uses@.len()
     && forall|d: int, k: int| 0 <= d < linked.env.nodes@.len() && 0 <= k < linked.env.nodes@[d].longer@.len() ==> (#[trigger] linked.env.nodes@[d].longer@[k]).0 < linked.uses@.len()
 }
-pub open spec fn link_of_ty<'tcx>(t: &Type, tcx: &'tcx TypeContext) -> Option<LL<'tcx>> {
-    match t { Type::Opaque(p) => Some(link_o(p, tcx)), Type::Struct(p) => Some(link_s(p, tcx)), _ => None }
+// the named type a (parameter / return) type USES: the property speaks of "every lifetime bound implied by a used type", and an optional
+// struct or opaque uses that type just as the bare spelling does (DiplomatOption<Foo<'x,'y>> is well-formed only if Foo<'x,'y> is)
+pub open spec fn link_of_ty<'tcx>(t: &Type, tcx: &'tcx TypeContext) -> Option<LL<'tcx>> decreases t {
+    match t { Type::Opaque(p) => Some(link_o(p, tcx)), Type::Struct(p) => Some(link_s(p, tcx)), Type::DiplomatOption(inner) => link_of_ty(&**inner, tcx), _ => None }
 }
 pub proof fn lemma_any_viol_next_inner(linked: LL, menv: &LifetimeEnv, oi: int, ii: int)
     ensures any_viol(linked, menv, oi, ii + 1) == (any_viol(linked, menv, oi, ii) || viol(linked, menv, oi, ii))
